@@ -17,6 +17,23 @@ CHECKS={
    technique='property-based testing over the full stated input range with an error-class oracle, blur constant located by bisection, catch_unwind + overflow-checked build for the no-panic clause, differential over both client libraries',
    text='2M/20M generated records and readings with timestamps in +-2^31 s, bounds < 2^60, drift over all of u32, and as_of-mono concentrated around the blur edge; oracle gives the exact expected outcome (Ok / CausalityBreach / SegmentMalformed with errno 0 and empty detail) for the Rust struct, the Rust client and the C library.',
    note='The blur is assumed to be one constant in [1 ns, 10 ms] (the property names no value); panics are detected in-process, aborts/crashes of the C library by driver death.'),
+
+ 'C07': dict(cat='exploration', ref='DESIGN.md#c07', engine='vcheck',
+   technique='property-based testing with wire-level generators (raw chrony-float bit fields through the real deserialiser) against an exact big-integer evaluation of the README formula',
+   text='2M/50M tracking replies per run; the derived bound must be >= 0, >= the exact sum (1-2^-45) and <= the exact sum (1+2^-45) rounded up, and the published bound must equal it plus the PHC error bound. Every representable float in 2^-64 s..2^20 s is reachable by the generator, both offset signs.',
+   note='Values outside exponents -39..21 are not generated (result would not fit i64/f64); relative tolerance 2^-45 for f64 rounding.'),
+ 'C08': dict(cat='exploration', ref='DESIGN.md#c08', engine='vcheck',
+   technique='model-based property testing over generated histories of poll outcomes (reference updater model vs the real process_messages/ShmUpdater/FSM/ShmWriter, read back through ShmReader and PROTOCOL.md offsets)',
+   text='400k/8M histories of up to 40 outcomes; after every outcome the published record is compared field by field with the reference model (freeze on loss, advance on sync, void_after, drift, status, one publication per outcome).',
+   note='Messages are delivered as a burst into the real mpsc mailbox; the virtual clock is stepped by the sink callback so that each message is processed at its scheduled instant. Status before the first Sync is left to C09.'),
+ 'C09': dict(cat='exploration', ref='DESIGN.md#c09', engine='vcheck',
+   technique='property-based testing over generated start-up histories with real client calls at generated uptimes; invariant: status Unknown before the first synchronised outcome',
+   text='400k/8M start-up histories of non-synchronised outcomes (every FreeRunning-class input included) with client calls at uptimes mostly below 1000 s; found the FreeRunning-with-placeholder defect on the pinned tree (fixed in 2bf8b5e).',
+   note='Same execution vehicle as C08.'),
+ 'C10': dict(cat='exploration', ref='DESIGN.md#c10', engine='vcheck',
+   technique='exhaustive enumeration of the 65536 leap codes x threshold placements plus property-based testing over intervals/ages, exact rational oracle',
+   text='All 65536 leap-status values x 12 (interval, age) combinations are enumerated on every run; 1M/30M random (leap, interval, age, FSM prefix) cases around 8 intervals and around now in addition; checked on extract_bound_from_tracking and on the published status.',
+   note='Within one second below 8 intervals either Synchronized or FreeRunning is accepted (whole-second threshold resolution of the implementation is not contradicted by the statement); negative update intervals are outside the domain.'),
 }
 NA_REASON='check under construction in this session; not claimed until its check is committed'
 m={"version":1,
